@@ -34,6 +34,10 @@ def plan(tier, seed):
     # equal-mass components (isomers): number share = mass share, so the declared fractions must simply be reproduced
     for i in range(12 if tier == "quick" else 120):
         cases.append({"kind": "isomers", "seed": seed * 1000621 + i, "nmol": 1500 if tier == "quick" else 20000})
+    # the same with ensembles far beyond any plausible internal batch: a composition that is fixed after the first ~1000 picks (a batch of picks that
+    # is re-used instead of redrawn) is off by ~ sqrt(p q / 1000) for ever, which only a tolerance well below that value can see
+    for i in range(3 if tier == "quick" else 8):
+        cases.append({"kind": "isomers", "seed": seed * 1000633 + i, "nmol": 60000 if tier == "quick" else 150000})
     return cases
 
 
